@@ -20,7 +20,12 @@
 (* literal argument, member of a struct literal argument, argument of a    *)
 (* nested call, return value, condition; for whole-aggregate copies: what   *)
 (* is evaluated earlier in the same statement).  The rule is context       *)
-(* independent.                                                            *)
+(* independent.  Likewise ignored: pre, a second unit next to the          *)
+(* construct (an illegal statement before / after it, a function with an   *)
+(* illegal statement before / after its function, a function that legally  *)
+(* mutates a `var` of the same name) -- every construct is judged on its   *)
+(* own -- and v, the flags `pub` / `extern` of the enclosing function      *)
+(* (parameters are immutable whatever the flags).                          *)
 (*                                                                         *)
 (* R (declarative; errors.md E530-E533, E513, features.md "Views",         *)
 (* "Reference pointers", "Structs and words", property C08):               *)
